@@ -22,6 +22,9 @@ os.environ["PYTHONPATH"] = str(REPO / "src") + os.pathsep + os.environ.get("PYTH
 import warnings  # noqa: E402
 
 warnings.filterwarnings("ignore")
+import logging  # noqa: E402
+
+logging.disable(logging.WARNING)
 
 
 def main() -> int:
